@@ -38,6 +38,8 @@ Check c07_model_state_is_the_struct : state_tied = true.
 Check c07_reply_whole_or_the_error_is_returned : forall pong ws d r ws',
   reply_then_return pong ws = (d, r, ws') ->
   (r = WOk -> d = pong) /\ (forall e, r = WErr e -> exists rest, pong = d ++ rest /\ rest <> []).
+Check c07_parked_reply_is_conserved : forall ws pw r pw' ws' w,
+  flush pw ws = (r, pw', ws', w) -> pw = w ++ pw' /\ (r = FDone -> pw' = []).
 Print Assumptions c07_at_most_one_reply_written_first.
 Print Assumptions c07_reply_iff_keepalive.
 Print Assumptions c07_history_trace.
@@ -46,3 +48,4 @@ Print Assumptions c07_caller_writes_do_not_matter.
 Print Assumptions c07_replies_whole_under_cancellation_and_writes.
 Print Assumptions c07_model_state_is_the_struct.
 Print Assumptions c07_reply_whole_or_the_error_is_returned.
+Print Assumptions c07_parked_reply_is_conserved.
